@@ -48,6 +48,14 @@ type FuncContract struct {
 	Trust    string // assumption id for assumed contracts
 	CallNames []CallName
 	CallAsserts []CallAssert
+	Ghosts      []GhostCounter
+}
+
+// GhostCounter: a ghost integer that counts the executed calls whose callee
+// name contains Callee (0 at function entry); usable in every clause.
+type GhostCounter struct {
+	Name   string
+	Callee string
 }
 
 // CallAssert: an assertion checked in the state just before the k-th call to
@@ -98,7 +106,7 @@ type Contracts struct {
 	Order  []string
 }
 
-var keywordRe = regexp.MustCompile(`^(func|assumed|iface|spec|lemma|axiom|property|requires|ensures|modifies|loop|panics|option|let|pure|trust|call)\b`)
+var keywordRe = regexp.MustCompile(`^(func|assumed|iface|spec|lemma|axiom|property|requires|ensures|modifies|loop|panics|option|let|pure|trust|call|ghost)\b`)
 
 func LoadContracts(files map[string][2]string) (*Contracts, error) {
 	cs := &Contracts{Funcs: map[string]*FuncContract{}, Specs: map[string]*SpecFn{}, Lemmas: map[string]*Lemma{}, Props: map[string][]string{}}
@@ -215,6 +223,12 @@ func (cs *Contracts) loadFile(file, pkgPath, pkgName string) error {
 		case "pure":
 			cur.Pure = true
 			cur.HasMod = true
+		case "ghost":
+			f := strings.Fields(rest)
+			if len(f) != 3 || f[1] != "counts" {
+				return perr(fmt.Errorf("ghost clause: ghost <name> counts <callee>"))
+			}
+			cur.Ghosts = append(cur.Ghosts, GhostCounter{f[0], f[2]})
 		case "trust":
 			cur.Trust = rest
 		case "call":
